@@ -611,6 +611,100 @@ def JHeap.aliasingJacCall (h : JHeap) (f : Nat) (j : Mat) : JHeap :=
   let r := h.adapterJac f j
   { r.1 with ret := r.1.ret ++ [r.2] }
 
+/-! ### `DisciplineAdapter._convert_jacobian_to_array`, block by block
+
+The adapter owns ONE dense array (allocated with `numpy.empty` at the first call, i.e. with arbitrary
+contents) and, at every call, copies each block `jacobians[output][input]` of the discipline into the cell
+`[output_slice, input_slice]` of that array; a SciPy sparse block is densified first (`toarray()` /
+`get_row(jac, 0).todense()`).  The slices of distinct (output, input) pairs are disjoint and cover the array
+(prefix sums of the output sizes and of the input sizes, see `dvIndices`), so the array is represented here
+by the table of its cells; read along the output slices (rows) and the input slices (columns) it is the
+array the adapter returns (`BlockTable.toArray` = `gAdapterJac` of the table). -/
+
+/-- A Jacobian block as the discipline hands it over.  A sparse block is given by what it *stores* for each
+    entry of the block: `some v` = a stored entry, `none` = not stored (an implicit zero).  A sparse array
+    built from the values of a matrix (`csr_array(dense)`) does not store the exact zeros. -/
+inductive JBlock where
+  | dense (m : Mat)
+  | sparse (stored : List (List (Option Rat)))
+  deriving Repr
+
+/-- `jac.toarray()` (the identity on a dense block). -/
+def JBlock.toArray : JBlock → Mat
+  | .dense m => m
+  | .sparse st => st.map (fun row => row.map (fun c => c.getD 0))
+
+/-- `jac.nnz` of a sparse block (the number of stored entries). -/
+def JBlock.nnz : JBlock → Nat
+  | .dense m => (m.map List.length).sum
+  | .sparse st => (st.map (fun row => (row.filter Option.isSome).length)).sum
+
+/-- The block a discipline returns for the matrix `m`: the dense array itself, or the sparse array built from
+    its values (`csr_array(m)`, `csc_array(m)`, `coo_matrix(m)`: zeros are not stored). -/
+def JBlock.ofMat (sparse : Bool) (m : Mat) : JBlock :=
+  if sparse then .sparse (m.map (fun row => row.map (fun v => if v == 0 then none else some v))) else .dense m
+
+/-- The cells `[output_slice, input_slice]` of the adapter's array (the most recent write of a cell first). -/
+abbrev BlockTable := List ((String × String) × Mat)
+
+def BlockTable.get (t : BlockTable) (o i : String) : Mat :=
+  match t.find? (fun p => p.1 == (o, i)) with
+  | some p => p.2
+  | none => []
+
+/-- `self.__jacobian[output_slice, input_slice] = block`. -/
+def BlockTable.write (t : BlockTable) (o i : String) (m : Mat) : BlockTable := ((o, i), m) :: t
+
+/-- The loop of `_convert_jacobian_to_array` over the output names and the differentiated input names, on
+    the array `buf` left by the previous call (or the arbitrary contents of `numpy.empty` at the first call):
+    EVERY cell is overwritten, whatever the storage of the block. -/
+def convertJac (buf : BlockTable) (outs inputNames : List String) (jac : String → String → JBlock) : BlockTable :=
+  outs.foldl (fun b o => inputNames.foldl (fun b i => b.write o i (jac o i).toArray) b) buf
+
+/-- The array the adapter returns. -/
+def BlockTable.toArray (t : BlockTable) (inputNames : List String) (rowsOf : String → Nat) (outs : List String) : Mat :=
+  gAdapterJac inputNames t.get rowsOf outs
+
+/-- The variant that skips the empty sparse blocks ("nothing to copy, the array is initialised with zeros").
+    (Only used in `Props/C17` to show what `adapter_array_is_current_jacobian` excludes.) -/
+def convertJacSkipEmpty (buf : BlockTable) (outs inputNames : List String) (jac : String → String → JBlock) : BlockTable :=
+  outs.foldl (fun b o => inputNames.foldl (fun b i =>
+    match jac o i with
+    | .sparse st => if (JBlock.sparse st).nnz == 0 then b else b.write o i (JBlock.sparse st).toArray
+    | blk => b.write o i blk.toArray) b) buf
+
+/-! ### The array in which the caller writes the design point
+
+`evaluate(x)` / `jac(x)` receive a NumPy array: float64 from the optimisers, but an int64 array when the
+caller writes a point with integer coordinates as `array([1, 2, 1])`, or when the point is the current value of
+an all-integer design space.  An integer array holds integers (`castTo .int` = the int64 cast, truncation
+toward zero).  A DOE on a design space mixing integer and float variables passes float64 samples carrying the
+declared types as dtype metadata, and `DisciplineAdapter.__create_discipline_input_data` casts the integer
+variables of the discipline input data accordingly (`typed = true`).  The disciplines compute with the numbers
+they receive; `FunctionFromDiscipline._jac_to_wrap` returns the unmasked Jacobian as it is (the statement
+`jac.astype(x_vect.dtype)` builds a new array that is dropped). -/
+
+inductive DType where
+  | int
+  | float
+  deriving Repr, DecidableEq
+
+/-- `ndarray.astype(dtype)` on the numbers of an array. -/
+def castTo : DType → Vec → Vec
+  | .int, v => v.map truncToInt
+  | .float, v => v
+
+/-- The numbers the disciplines read when the design point `x` is passed as an array of dtype `dt`
+    (`intMask`: per component, whether the design variable is declared integer; `typed`: the array carries the
+    declared types). -/
+def typedVector (intMask : List Bool) (dt : DType) (typed : Bool) (x : Vec) : Vec :=
+  let a := castTo dt x
+  if typed then List.zipWith (fun b v => if b then truncToInt v else v) intMask a else a
+
+/-- What casting the returned Jacobian to the dtype of the design vector would give.
+    (Only used in `Props/C17` to show what `typed_point_is_the_same_point` is about.) -/
+def jacAstypeVariant (dt : DType) (j : Mat) : Mat := j.map (castTo dt)
+
 /-! ### `OptimizationProblem.add_constraint(value, positive)`: `c - a` or `a - c` -/
 
 def formatValue (a : Rat) (positive : Bool) (v : Vec) : Vec :=
